@@ -275,7 +275,22 @@ def hyp_settings(max_examples, stateful_step_count=None, shrink=True):
     return settings(**kw)
 
 
-def run_given(test, seed, max_examples, last_fail_holder, rec):
+def _flaky(f, holder, rec, retry):
+    """Hypothesis saw a failure that did not repeat.  If the stored failing case fails again when re-run directly,
+    the system under test itself is non-deterministic *and* violating: report it.  Otherwise it is inconclusive
+    (exit 2), never a violation."""
+    case = holder.get("case")
+    if retry is not None and case is not None:
+        for _ in range(6):
+            try:
+                retry(case)
+            except Violation as v:
+                rec.violation(case, v.msg + " [non-deterministic: the same case passes in some runs]", v.signature)
+                return True
+    raise HarnessError(f"hypothesis reported flakiness and the case did not fail again in 6 direct re-runs: {f}")
+
+
+def run_given(test, seed, max_examples, last_fail_holder, rec, retry=None):
     """Run a @given-decorated test (without settings/seed applied yet) under a pinned seed.
     The test body must store its case in last_fail_holder['case'] *before* raising
     Violation.  Hypothesis replays the minimal failing example last, so after the run
@@ -288,12 +303,12 @@ def run_given(test, seed, max_examples, last_fail_holder, rec):
     except Violation as v:
         rec.violation(last_fail_holder.get("case"), v.msg, v.signature)
         return True
-    except hypothesis.errors.Flaky as f:  # non-determinism in harness or SUT: harness error
-        raise HarnessError(f"hypothesis reported flakiness: {f}")
+    except hypothesis.errors.Flaky as f:
+        return _flaky(f, last_fail_holder, rec, retry)
     return False
 
 
-def run_machine(machine_cls, seed, max_examples, steps, last_fail_holder, rec):
+def run_machine(machine_cls, seed, max_examples, steps, last_fail_holder, rec, retry=None):
     import hypothesis
     from hypothesis.stateful import run_state_machine_as_test
 
@@ -304,7 +319,7 @@ def run_machine(machine_cls, seed, max_examples, steps, last_fail_holder, rec):
         rec.violation(last_fail_holder.get("case"), v.msg, v.signature)
         return True
     except hypothesis.errors.Flaky as f:
-        raise HarnessError(f"hypothesis reported flakiness: {f}")
+        return _flaky(f, last_fail_holder, rec, retry)
     return False
 
 
